@@ -433,8 +433,13 @@ func (fr *Frame) binary(st *State, n *ast.BinaryExpr) Val {
 }
 
 func sideEffects(a, b *State) bool {
-	if len(a.heap) != len(b.heap) || a.next != b.next {
+	if len(a.heap) != len(b.heap) || a.next != b.next || len(a.ghost) != len(b.ghost) {
 		return true
+	}
+	for k, v := range a.ghost {
+		if b.ghost[k].T != v.T {
+			return true
+		}
 	}
 	for k, v := range a.heap {
 		if b.heap[k] != v {
